@@ -105,11 +105,13 @@ static uint64_t mix64(uint64_t h, uint64_t v) {
 /* hash of the return-address chain of the calling thread (frame pointers; all code is built with
  * -fno-omit-frame-pointer).  Identifies the call site of the pending synchronisation operation and its callers. */
 extern char __executable_start, etext; /* linker-provided bounds of the executable's text */
+static void** t0_limit; /* frame of vs_begin's caller: thread 0's walk stops there (what lies above depends on who started the worker) */
 static uint64_t backtrace_hash(void) {
     uint64_t h = 1469598103934665603ull;
     void** fp = (void**)__builtin_frame_address(0);
     void** base = fp;
     for (int n = 0; n < 12 && fp; ++n) {
+        if (cur == 0 && t0_limit && fp >= t0_limit) break;
         void* ret = fp[1];
         /* stop at the first frame outside the executable (libc's thread start routine etc. keep no frame pointers) */
         if ((char*)ret < &__executable_start || (char*)ret >= &etext) break;
@@ -136,6 +138,11 @@ static uint64_t global_state_hash(void) {
     }
     for (int m = 0; m < nM; ++m) h = mix64(h, (uint64_t)(M[m].held ? M[m].owner + 1 : 0));
     if (state_cb) h = mix64(h, state_cb());
+    if (SH->user[5]) { /* debugging aid: dump the components */
+        fprintf(stderr, "DBGSTATE pt=%d cur=%d nM=%d", SH->npoints, cur, nM);
+        for (int t = 0; t < nT; ++t) fprintf(stderr, " T%d[s%d o%d loc%llx tag%llu sp%d sl%d]", t, T[t].state, T[t].obj, (unsigned long long)T[t].loc, (unsigned long long)T[t].tag, T[t].spin, T[t].same_loads);
+        fprintf(stderr, " cb=%llx\n", (unsigned long long)(state_cb ? state_cb() : 0));
+    }
     return h ? h : 1;
 }
 
@@ -227,6 +234,7 @@ static void point(void) {
 
 void vs_begin(struct vs_shared* sh) {
     SH = sh;
+    t0_limit = (void**)__builtin_frame_address(1);
     memset(T, 0, sizeof T);
     /* mutex / cv ids handed out before the first vs_begin (static objects) stay valid */
     static int base_nM = -1, base_nCV = -1;
